@@ -408,6 +408,15 @@ def candidates(fn, stored_attrs=frozenset()) -> List[Cand]:
                         last.orelse = []
                         stmts[i + 1:i + 1] = moved
                     out.append(("else-out-last", f))
+            # `if c: A else: B(exits)`  ->  `if not c: B` + A   (swap + else-out in one step: the shape step would undo the swap alone)
+            if isinstance(st, ast.If) and st.orelse and exits(st.orelse) and not (len(st.orelse) == 1 and isinstance(st.orelse[0], ast.If)):
+                for k, ng in enumerate(negations(st.test)):
+                    def f(stmts=stmts, i=i, st=st, ng=ng):
+                        moved = st.body
+                        st.test = ng
+                        st.body, st.orelse = st.orelse, []
+                        stmts[i + 1:i + 1] = moved
+                    out.append((f"else-exit-out{k}", f))
             # try / except-exit / else
             if isinstance(st, ast.Try) and st.handlers and not st.finalbody and all(exits(h.body) for h in st.handlers):
                 if rest and not st.orelse:
@@ -1153,11 +1162,34 @@ def _tailify(stmts):
                 last.orelse = _tailify(stmts[i + 1:])
                 stmts = stmts[:i + 1]
                 break
+    for i, st in enumerate(stmts):
+        # `for ...: ... return X` + rest: the rest runs exactly when the loop ends without returning = the loop's else clause
+        if isinstance(st, ast.For) and not st.orelse and i < len(stmts) - 1 and _loop_returns(st) and not any(isinstance(x, ast.Break) for b in st.body for x in _walk_same_loop(b)):
+            st.orelse = _tailify(stmts[i + 1:])
+            stmts = stmts[:i + 1]
+            break
     for st in stmts:
         if isinstance(st, ast.If):
             st.body = _tailify(st.body)
             st.orelse = _tailify(st.orelse)
     return stmts
+
+
+def _loop_returns(loop) -> bool:
+    """the loop body returns from inside if-chains only (no return in a nested loop / try / with)."""
+    found = []
+
+    def rec(stmts):
+        for s_ in stmts:
+            if isinstance(s_, ast.Return):
+                found.append(s_)
+            elif isinstance(s_, ast.If):
+                rec(s_.body)
+                rec(s_.orelse)
+            elif any(isinstance(x, ast.Return) for x in _walk_no_scope(s_)):
+                found.append(None)
+    rec(loop.body)
+    return bool(found) and None not in found
 
 
 def _tail_returns_only(stmts, tail=True) -> bool:
@@ -1169,6 +1201,9 @@ def _tail_returns_only(stmts, tail=True) -> bool:
                 return False
         elif isinstance(st, ast.If):
             if not (_tail_returns_only(st.body, is_last) and _tail_returns_only(st.orelse, is_last)):
+                return False
+        elif isinstance(st, ast.For) and st.orelse and is_last and _loop_returns(st):
+            if not _tail_returns_only(st.orelse, True):
                 return False
         elif isinstance(st, ast.Try) and not st.finalbody:
             # `try: return E except T: return F` as the last statement: the returns are in tail position too
@@ -1198,6 +1233,10 @@ def _map_returns(stmts, make):
             out.extend(make(st))
         elif isinstance(st, ast.If):
             st.body = _map_returns(st.body, make)
+            st.orelse = _map_returns(st.orelse, make)
+            out.append(st)
+        elif isinstance(st, ast.For) and st.orelse and _loop_returns(st):
+            st.body = _map_returns(st.body, lambda r, make=make: [*make(r), L(ast.Break(), r)])
             st.orelse = _map_returns(st.orelse, make)
             out.append(st)
         elif isinstance(st, ast.Try):
@@ -1424,6 +1463,11 @@ def inline_helpers(tree: ast.Module, known_paths: set, functions) -> int:
                                 a_.value = r.value if r.value is not None else L(ast.Constant(value=None), r)
                                 if isinstance(a_, ast.Assign) and len(a_.targets) == 1 and ast.dump(_strip_ctx(a_.targets[0])) == ast.dump(_strip_ctx(a_.value)):
                                     return []      # `t1, t2 = (t1, t2)`
+                                if isinstance(a_, ast.Assign) and len(a_.targets) == 1 and isinstance(a_.targets[0], ast.Tuple) and isinstance(a_.value, ast.Tuple) \
+                                        and len(a_.targets[0].elts) == len(a_.value.elts) and all(isinstance(t, ast.Name) for t in a_.targets[0].elts) \
+                                        and not any(mentions(v, t.id) for v in a_.value.elts for t in a_.targets[0].elts):
+                                    # `t1, t2 = (e1, e2)` with independent sides: one assignment each
+                                    return [L(ast.Assign(targets=[t], value=v), a_) for t, v in zip(a_.targets[0].elts, a_.value.elts)]
                                 return [a_]
                             new = prologue + _map_returns(body, mk)
                         elif body and isinstance(body[-1], ast.Return) and body[-1].value is not None and _tail_returns_only(body) and not any(isinstance(x, ast.Return) for s in body[:-1] for x in _walk_no_scope(s)):
@@ -1506,6 +1550,8 @@ def _all_tails_return(stmts) -> bool:
         return True
     if isinstance(s, ast.Try) and not s.finalbody and s.handlers:
         return _all_tails_return(s.orelse if s.orelse else s.body) and all(_all_tails_return(h.body) for h in s.handlers)
+    if isinstance(s, ast.For) and s.orelse and _loop_returns(s):
+        return _all_tails_return(s.orelse)
     return False
 
 
